@@ -861,6 +861,77 @@ theorem no_warning_on_matrix (check : Bool) (rtol atol : ℝ) (hr : 0 ≤ rtol) 
     unfold lastRowWarn at hw
     cases lay <;> simp [hrow, h1, h1'] at hw
 
+/-! ## 11. pass 7: valid up to rounding ⇒ accepted -/
+/-- **valid up to rounding ⇒ accepted.** A matrix whose entries are within `δ` of an exact rotation matrix `R₀` (what `X.matrix()`
+is in floating point, `δ` a few ulps) passes the orthogonality test as soon as `6δ + 3δ² ≤ atol`, and the determinant test as soon
+as `6(3δ + 3δ² + δ³) ≤ atol + rtol`: "valid inputs never raise" holds for every input in a `δ`-neighbourhood of the valid ones, not
+only for the exact matrices of the other theorems. (The size of `δ` for the float code is measured, a few ulps; with the default tolerances `1e-5` the orthogonality bound admits
+`δ ≤ 1.6·10⁻⁶`, i.e. ≈ 14 float32 ulps and ≈ 7·10⁹ float64 ulps.) -/
+theorem check_accepts_near_rotation (detK : Mat3 ℝ → ℝ) (hdet : ∀ M, detK M = M.det) (rtol atol δ : ℝ) (hr : 0 ≤ rtol) (hδ : 0 ≤ δ)
+    (R R₀ : Mat3 ℝ) (hO : R₀.mul R₀.transpose = Mat3.one) (hD : R₀.det = 1) (hn : Mat3.Near δ R R₀)
+    (hb : 6 * δ + 3 * δ ^ 2 ≤ atol) (hb' : 6 * (3 * δ + 3 * δ ^ 2 + δ ^ 3) ≤ atol + rtol) :
+    mat2SO3 detK true rtol atol R = .ok (mat2SO3Raw atol R) := by
+  obtain ⟨n0, n1, n2⟩ := hn
+  -- rows of R₀ are orthonormal
+  have o00 : R₀.r0.x * R₀.r0.x + R₀.r0.y * R₀.r0.y + R₀.r0.z * R₀.r0.z = 1 := by
+    have := congrArg (fun M : Mat3 ℝ => M.r0.x) hO; lie_unfold_at this; linarith
+  have o11 : R₀.r1.x * R₀.r1.x + R₀.r1.y * R₀.r1.y + R₀.r1.z * R₀.r1.z = 1 := by
+    have := congrArg (fun M : Mat3 ℝ => M.r1.y) hO; lie_unfold_at this; linarith
+  have o22 : R₀.r2.x * R₀.r2.x + R₀.r2.y * R₀.r2.y + R₀.r2.z * R₀.r2.z = 1 := by
+    have := congrArg (fun M : Mat3 ℝ => M.r2.z) hO; lie_unfold_at this; linarith
+  have o01 : R₀.r0.dot R₀.r1 = 0 := by
+    have := congrArg (fun M : Mat3 ℝ => M.r0.y) hO; lie_unfold_at this; simp only [Vec3.dot]; linarith
+  have o02 : R₀.r0.dot R₀.r2 = 0 := by
+    have := congrArg (fun M : Mat3 ℝ => M.r0.z) hO; lie_unfold_at this; simp only [Vec3.dot]; linarith
+  have o12 : R₀.r1.dot R₀.r2 = 0 := by
+    have := congrArg (fun M : Mat3 ℝ => M.r1.z) hO; lie_unfold_at this; simp only [Vec3.dot]; linarith
+  have b0 := row_entries_le_one R₀.r0 o00
+  have b1 := row_entries_le_one R₀.r1 o11
+  have b2 := row_entries_le_one R₀.r2 o22
+  have d00 := dot_near R.r0 R.r0 R₀.r0 R₀.r0 δ hδ n0 n0 b0 b0
+  have d11 := dot_near R.r1 R.r1 R₀.r1 R₀.r1 δ hδ n1 n1 b1 b1
+  have d22 := dot_near R.r2 R.r2 R₀.r2 R₀.r2 δ hδ n2 n2 b2 b2
+  have d01 := dot_near R.r0 R.r1 R₀.r0 R₀.r1 δ hδ n0 n1 b0 b1
+  have d02 := dot_near R.r0 R.r2 R₀.r0 R₀.r2 δ hδ n0 n2 b0 b2
+  have d12 := dot_near R.r1 R.r2 R₀.r1 R₀.r2 δ hδ n1 n2 b1 b2
+  have s00 : R₀.r0.dot R₀.r0 = 1 := by simp only [Vec3.dot]; exact o00
+  have s11 : R₀.r1.dot R₀.r1 = 1 := by simp only [Vec3.dot]; exact o11
+  have s22 : R₀.r2.dot R₀.r2 = 1 := by simp only [Vec3.dot]; exact o22
+  rw [s00] at d00; rw [s11] at d11; rw [s22] at d22; rw [o01, sub_zero] at d01; rw [o02, sub_zero] at d02; rw [o12, sub_zero] at d12
+  have horth : orthOk rtol atol R = true := by
+    rw [orthOk_iff]
+    have e : ∀ a b : Vec3 ℝ, a.dot b = b.dot a := by intro a b; simp only [Vec3.dot]; ring
+    have m00 : (R.mul R.transpose).r0.x = R.r0.dot R.r0 := by lie_unfold
+    have m11 : (R.mul R.transpose).r1.y = R.r1.dot R.r1 := by lie_unfold
+    have m22 : (R.mul R.transpose).r2.z = R.r2.dot R.r2 := by lie_unfold
+    have m01 : (R.mul R.transpose).r0.y = R.r0.dot R.r1 := by lie_unfold
+    have m02 : (R.mul R.transpose).r0.z = R.r0.dot R.r2 := by lie_unfold
+    have m10 : (R.mul R.transpose).r1.x = R.r0.dot R.r1 := by lie_unfold; ring
+    have m12 : (R.mul R.transpose).r1.z = R.r1.dot R.r2 := by lie_unfold
+    have m20 : (R.mul R.transpose).r2.x = R.r0.dot R.r2 := by lie_unfold; ring
+    have m21 : (R.mul R.transpose).r2.y = R.r1.dot R.r2 := by lie_unfold; ring
+    rw [m00, m11, m22, m01, m02, m10, m12, m20, m21]
+    refine ⟨⟨?_, ?_, ?_⟩, ?_, ?_, ?_, ?_, ?_, ?_⟩ <;> linarith
+  have hdetok : detOk rtol atol (detK R) = true := by
+    rw [hdet, detOk_iff, ← hD]
+    obtain ⟨a1, a2, a3⟩ := n0
+    obtain ⟨c1, c2, c3⟩ := n1
+    obtain ⟨e1, e2, e3⟩ := n2
+    have t1 := mul3_near R.r0.x R.r1.y R.r2.z R₀.r0.x R₀.r1.y R₀.r2.z δ hδ a1 c2 e3 b0.1 b1.2.1 b2.2.2
+    have t2 := mul3_near R.r0.x R.r1.z R.r2.y R₀.r0.x R₀.r1.z R₀.r2.y δ hδ a1 c3 e2 b0.1 b1.2.2 b2.2.1
+    have t3 := mul3_near R.r0.y R.r1.z R.r2.x R₀.r0.y R₀.r1.z R₀.r2.x δ hδ a2 c3 e1 b0.2.1 b1.2.2 b2.1
+    have t4 := mul3_near R.r0.y R.r1.x R.r2.z R₀.r0.y R₀.r1.x R₀.r2.z δ hδ a2 c1 e3 b0.2.1 b1.1 b2.2.2
+    have t5 := mul3_near R.r0.z R.r1.x R.r2.y R₀.r0.z R₀.r1.x R₀.r2.y δ hδ a3 c1 e2 b0.2.2 b1.1 b2.2.1
+    have t6 := mul3_near R.r0.z R.r1.y R.r2.x R₀.r0.z R₀.r1.y R₀.r2.x δ hδ a3 c2 e1 b0.2.2 b1.2.1 b2.1
+    have ed : R.det - R₀.det = (R.r0.x * R.r1.y * R.r2.z - R₀.r0.x * R₀.r1.y * R₀.r2.z) - (R.r0.x * R.r1.z * R.r2.y - R₀.r0.x * R₀.r1.z * R₀.r2.y)
+        + (R.r0.y * R.r1.z * R.r2.x - R₀.r0.y * R₀.r1.z * R₀.r2.x) - (R.r0.y * R.r1.x * R.r2.z - R₀.r0.y * R₀.r1.x * R₀.r2.z)
+        + (R.r0.z * R.r1.x * R.r2.y - R₀.r0.z * R₀.r1.x * R₀.r2.y) - (R.r0.z * R.r1.y * R.r2.x - R₀.r0.z * R₀.r1.y * R₀.r2.x) := by
+      lie_unfold; ring
+    rw [ed]
+    rw [abs_le] at t1 t2 t3 t4 t5 t6 ⊢
+    constructor <;> linarith [t1.1, t1.2, t2.1, t2.2, t3.1, t3.2, t4.1, t4.2, t5.1, t5.2, t6.1, t6.2]
+  exact (mat2SO3_ok_iff detK rtol atol R _).mpr ⟨horth, hdetok, rfl⟩
+
 /-! ### non-vacuity: the hypotheses are satisfiable by non-trivial values -/
 
 /-- rotation by exactly π about the x axis (`w = 0`): region 0, recovered exactly -/
@@ -957,5 +1028,14 @@ example : C11.BadRot Mat3.det (1/100000) (1/100000) (⟨⟨1, 0, 0⟩, ⟨0, 1, 
   apply Bool.eq_false_iff.mpr; intro h
   have := (detOk_iff _ _ _).mp h
   revert this; lie_unfold; norm_num [abs_of_neg]
+/-- `check_accepts_near_rotation` has non-trivial instances: the identity with one entry off by `10⁻⁷`, `δ = 10⁻⁷`, default tolerances -/
+example : mat2SO3 Mat3.det true (1/100000) (1/100000) (⟨⟨1, 1/10000000, 0⟩, ⟨0, 1, 0⟩, ⟨0, 0, 1⟩⟩ : Mat3 ℝ)
+    = .ok (mat2SO3Raw (1/100000) (⟨⟨1, 1/10000000, 0⟩, ⟨0, 1, 0⟩, ⟨0, 0, 1⟩⟩ : Mat3 ℝ)) := by
+  apply check_accepts_near_rotation Mat3.det (fun _ => rfl) (1/100000) (1/100000) (1/10000000) (by norm_num) (by norm_num) _ Mat3.one
+  · ext <;> lie_unfold <;> norm_num
+  · lie_unfold; norm_num
+  · refine ⟨⟨?_, ?_, ?_⟩, ⟨?_, ?_, ?_⟩, ⟨?_, ?_, ?_⟩⟩ <;> lie_unfold <;> norm_num [abs_of_pos]
+  · norm_num
+  · norm_num
 
 end PP
